@@ -359,9 +359,15 @@ func GosymH_C10_extract() {
 	if gosym_Param("symbolic-bystander", 0) == 1 {
 		t1 = mk("1")
 	}
-	t0.name, t1.name, t2.name = "f", "g", "f"
+	// the bystander file is "g", or "d/f": a file token whose name has a directory part (the format allows it)
+	// and the same base name as f
+	gname := "g"
+	if gosym_Fork("bystander-in-a-subdirectory-with-the-same-base-name") {
+		gname = "d/f"
+	}
+	t0.name, t1.name, t2.name = "f", gname, "f"
 	if gosym_Fork("second-token-of-f-is-in-the-other-stream") {
-		t2.name = "g"
+		t2.name = gname
 	}
 	line1 := gosymStreamText(".", gosymHashes, sizes, []gosymTok{t0, t1}, gosymIdent)
 	line2 := gosymStreamText("./s", gosymHashes[1:], sizes[1:], []gosymTok{{pos: 0, ln: sizes[1], name: "h"}}, gosymIdent)
@@ -375,9 +381,9 @@ func GosymH_C10_extract() {
 		want       map[string]string // output path -> original path
 	}
 	cases := []tc{
-		{".", ".", map[string]string{"./f": "./f", "./g": "./g", "./s/h": "./s/h"}},
+		{".", ".", map[string]string{"./f": "./f", "./" + gname: "./" + gname, "./s/h": "./s/h"}},
 		{"./f", ".", map[string]string{"./f": "./f"}},
-		{"./g", "./x", map[string]string{"./x": "./g"}},
+		{"./" + gname, "./x", map[string]string{"./x": "./" + gname}},
 		{"./f", "./d/", map[string]string{"./d/f": "./f"}},
 		{"./s", "./t", map[string]string{"./t/h": "./s/h"}},
 		{"./s/h", "./u/v", map[string]string{"./u/v": "./s/h"}},
